@@ -303,6 +303,10 @@ package database
 //@   at after (*Controller).runPostGetHooks ghost postErr = ret1
 //@   at after (*Controller).runPostGetHooks ghost postDone = true
 //@   ensures r1 == nil ==> postDone && postErr == nil && r0 == post
+// C02: a record that is deleted or expired is not found
+//@   ghost var valid bool = false
+//@   at after (*Meta).CheckValidity ghost valid = ret0
+//@   ensures r1 == nil ==> valid
 //@   ensures preDone && pre != nil ==> r1 == pre && r0 == nil
 //@   ensures postDone && postErr != nil ==> r1 == postErr && r0 == nil
 
